@@ -63,3 +63,37 @@ Example C05_mp11_action_deferred_order_refuted :
                              (fst (nth 4 (run cf md ops) ([], []))) in
   actions (Cfg Mp11 false 0 false) = [3; 2; 1] /\ actions (Cfg Back false 0 false) = [1; 2; 3].
 Proof. vm_compute. split; reflexivity. Qed.
+
+(* backmp11's pool while a deferring configuration stays active (the dispatcher is a stub that records the payload and
+   leaves the configuration alone): one pass of the pool loop dispatches exactly the stored occurrences whose type the
+   configuration does not defer, oldest first, each once (`filter ndfd`), and keeps the deferred ones in the pool -
+   unmarked, in arrival order, with their payloads and stamps (`filter dfd`) - however many others are dispatched, as
+   long as no occurrence stays stored for a whole turn of the 16-bit counter (`ages_ok`; beyond it finding F6).
+   K: the deferred occurrences the loop has already passed. *)
+Theorem C05_mp11_pool_keeps_deferred_in_order : forall cf parents contained mc children (D:nat -> bool) conf0,
+  (forall rn ety, conf_of rn = conf0 -> defers_active mc children rn ety = D ety) ->
+  forall R K f rn g p, conf_of rn = conf0 -> (0 <= curseq rn < MW)%Z -> msgq rn = pool_items (curseq rn) (K ++ R) ->
+    Forall (fun x => dfd D x = true) K -> ages_ok (length R) (K ++ R) -> length R * (length K + length R + 3) + 1 <= f ->
+    pool_loop cf parents contained mc children (mstubd (fun _ => [])) f (length K) p 0 rn g =
+      (Some (p + length (filter (ndfd D) R)),
+       set_curseq (set_msgq rn (pool_items (curseq rn) (K ++ filter (dfd D) R)))
+                  ((curseq rn + Z.of_nat (length (filter (ndfd D) R))) mod MW)%Z,
+       Glob (rev (map (fun x => Res (e_pay (fst x))) (filter (ndfd D) R)) ++ g_tr g) (g_cb g) (g_plan g) (g_val g) (g_up g) (g_bad g)).
+Proof. exact mp11_pool_keeps_deferred. Qed.
+Print Assumptions C05_mp11_pool_keeps_deferred_in_order.
+
+(* the hypotheses are met: a machine whose active state 0 defers e5, a pool of five occurrences stored at different
+   times; e5 with payloads 1 and 4 stay, in that order, the others are dispatched 2, 3, 5 *)
+Example C05_mp11_pool_keeps_deferred_example :
+  let mc := Machine [State KSimple None [] [5] [] 0; State KSimple None [] [] [] 0] [0] [] [] HNone in
+  let D := fun ety => Nat.eqb ety 5 in
+  let rn := RN [0] [None; None] [0] (pool_items 7 [(Evt 5 1, 4); (Evt 6 2, 3); (Evt 4 3, 3); (Evt 5 4, 2); (Evt 6 5, 1)]) [] 7 false true in
+  (forall rn' ety, conf_of rn' = conf_of rn -> defers_active mc [None; None] rn' ety = D ety) /\
+  let '(r, rn', g) := pool_loop (Cfg Mp11 false 0 false) [] false mc [None; None] (mstubd (fun _ => [])) 60 0 0 0 rn (Glob [] 0 [] [] [] 0) in
+  r = Some 3 /\ rev (g_tr g) = [Res 2; Res 3; Res 5] /\ msgq rn' = pool_items 7 [(Evt 5 1, 4); (Evt 5 4, 2)].
+Proof.
+  cbn zeta. split.
+  - intros rn' ety H. unfold conf_of in H. injection H as Ha Hk Hr.
+    unfold defers_active, active_any. rewrite Hr, Ha. cbn. rewrite orb_false_r. destruct (Nat.eqb_spec ety 5) as [->|Hn]; reflexivity.
+  - vm_compute. repeat split; reflexivity.
+Qed.
